@@ -1,1 +1,11 @@
 import Ypv.Props.C05
+#print axioms Ypv.C05.merge_total
+#print axioms Ypv.C05.policy_precedence
+#print axioms Ypv.C05.modes_are_pick
+#print axioms Ypv.C05.array_merge_eq_spec
+#print axioms Ypv.C05.array_all_is_append
+#print axioms Ypv.C05.set_merge_eq_spec
+#print axioms Ypv.C05.rhs_scalar_overrides
+#print axioms Ypv.C05.impossible_is_merge_error
+#print axioms Ypv.C05.merge_order_ok_partial
+#print axioms Ypv.C05.lhs_keys_kept
